@@ -848,7 +848,8 @@ class ExtEvent:
 
         Return the event handler's exit value.
         """
-        if not simulator.get_circuit().is_ready():
+        # the destination's circuit (not necessarily the current one, see reset_circuit)
+        if not self._dest.circuit.is_ready():
             raise EdzedInvalidState("The circuit simulation is shutting down or not running")
         if value is not UNDEF:
             data['value'] = value
